@@ -169,6 +169,7 @@ class SliceEval:
         self.L = lin_atom("L")
         self.notes = []
         self._var_assumed = {}
+        self.trim_of = {}                          # atom name of a trimmed end -> end of the untrimmed slice
 
     def is_suffix_closure(self, t):
         """closure whose body returns `strip_prefix(<captured content>, <const>)`"""
@@ -226,7 +227,9 @@ class SliceEval:
             if fn in ("core::str::trim_ascii_end", "core::str::trim_end"):
                 s = self.slice(t[2][0])
                 if s is not None:
-                    return (s[0], lin_atom("T[%s]" % show(t)))
+                    name = "T[%s]" % show(t)
+                    self.trim_of[name] = s[1]
+                    return (s[0], lin_atom(name))
             return None
         if t[0] == "var":
             return self.var_slice(t)
@@ -328,20 +331,22 @@ def _refers(body, op, l):
     return False
 
 
-def check_partition(body, pieces, ev):
-    """pieces cover [0, L) consecutively; returns (ok, description, problems)"""
+def check_partition(body, pieces, ev, allow_trailing_trim=True):
+    """pieces cover [0, L) consecutively; returns (ok, description, problems).
+    Blank characters may be appended conditionally; the slices of the text must be appended unconditionally relative to each other.
+    With allow_trailing_trim the cover may stop at `trim_ascii_end` of a slice that reaches the end of the text (only blanks are cut)."""
     problems = []
     cur = lin_const(0)
     desc = []
     prev = None
     for c, kind, payload in pieces:
-        if prev is not None:
-            if not (body.dominates(prev.bb, c.bb) and body.postdominates(c.bb, prev.bb)):
-                problems.append("append at bb%d is not executed exactly when the previous one is" % c.bb)
-        prev = c
         if kind == "blank":
             desc.append("blank")
             continue
+        if prev is not None:
+            if not (body.dominates(prev.bb, c.bb) and body.postdominates(c.bb, prev.bb)):
+                problems.append("the piece appended at bb%d is not appended exactly when the previous piece is" % c.bb)
+        prev = c
         if kind in ("slice", "case-mapped-slice"):
             s, e = payload
             if not lin_eq(s, cur):
@@ -352,5 +357,10 @@ def check_partition(body, pieces, ev):
         problems.append("%s: %s" % (kind, payload))
         desc.append(kind)
     if not lin_eq(cur, ev.L):
-        problems.append("pieces end at %s, not at the end of the text (L)" % lin_show(cur))
+        atoms = [k for k, v in cur.items() if k and v]
+        trimmed = allow_trailing_trim and len(atoms) == 1 and cur.get("", 0) == 0 and cur[atoms[0]] == 1 and atoms[0] in ev.trim_of and lin_eq(ev.trim_of[atoms[0]], ev.L)
+        if trimmed:
+            desc.append("(trailing blanks cut: trim_ascii_end)")
+        else:
+            problems.append("pieces end at %s, not at the end of the text (L)" % lin_show(cur))
     return (not problems, desc, problems)
